@@ -555,6 +555,19 @@ func c14Gen(t *rapid.T) c14Case {
 			c.Auth = &e
 		default:
 			a := rapid.SampledFrom([]string{"user@example.org", "a+b@c", "x=y@z", "first.last@d.e", "a!#$%&'*+-/=?^_`{|}~z@q"}).Draw(t, "auth")
+			if rapid.IntRange(0, 2).Draw(t, "auth_from_pieces") == 0 {
+				// local part put together from atom characters, '+', '=' and
+				// (with SMTPUTF8 on both sides) non-ASCII text
+				pieces := []string{"a", "Z", "0", "+", "=", ".x", "-", "_", "!", "%", "{", "}", "~", "41", "+2B"}
+				if c.UTF8 {
+					pieces = append(pieces, "é", "€", "用", "ü")
+				}
+				var sb strings.Builder
+				for i, n := 0, rapid.IntRange(1, 6).Draw(t, "auth_n"); i < n; i++ {
+					sb.WriteString(rapid.SampledFrom(pieces).Draw(t, "auth_piece"))
+				}
+				a = strings.TrimPrefix(sb.String(), ".") + "@example.org"
+			}
 			c.Auth = &a
 		}
 		if c.UTF8 && rapid.Bool().Draw(t, "ufrom") {
